@@ -23,7 +23,7 @@ META = {
   "h_multiply": {"kind": "G",
     "functions": ["Multiplication.multiply/_compute_copy_names/__divide_segment_and_connection_counts/__clone_segment_and_connections/_distribute_links/_select_distribute_end",
                   "Line.clone", "Connection.connect", "Link.__hash__", "Gfa.rm"],
-    "bounds": "segment X (sequence, RC count from {0,1,7,50,99} (thorough; quick 7), edge count from {0,5,98}, custom tag) with a neighbourhood chosen from 10 shapes (incl. ID-tagged edges, two self-containments whose contents become equal after division) (1-3 links on R, links on both ends, parallel links, self link, hairpin, containments either way, names already ending in *2) x factor -1..4 x policy in {None, off, auto, equal, L, R} x copy names given or automatic; statement-derived expectations + reference-graph invariant + neighbourhood oracle",
+    "bounds": "segment X (sequence, RC count from {0,1,7,50,99} (thorough; quick 7), edge count from {0,5,98}, custom tag) with a neighbourhood chosen from 11 shapes (incl. ID-tagged edges, textually identical parallel containments, two self-containments whose contents become equal after division) (1-3 links on R, links on both ends, parallel links, self link, hairpin, containments either way, names already ending in *2) x factor -1..4 x policy in {None, off, auto, equal, L, R} x copy names given or automatic; statement-derived expectations + reference-graph invariant + neighbourhood oracle",
     "timeout": {"quick": 400, "thorough": 1500}, "parts": {"quick": 16, "thorough": 16}},
  },
 }
@@ -62,6 +62,7 @@ SHAPES = [
   ("hairpin", ["L\tX\t+\tX\t-\t1M\tRC:i:{e}", "L\tb\t+\tX\t+\t2M"]),
   ("containments", ["C\tX\t+\ta\t-\t1\t2M\tRC:i:{e}", "C\tb\t+\tX\t+\t0\t*", "L\tX\t-\tc\t+\t1M"]),
   ("self_containments", ["C\tX\t+\tX\t-\t0\t3M\tKC:i:4", "C\tX\t+\tX\t-\t0\t3M\tKC:i:2", "L\tX\t+\ta\t+\t2M\tRC:i:{e}"]),
+  ("identical_parallel", ["C\tX\t+\ta\t+\t0\t3M", "C\tX\t+\ta\t+\t0\t3M", "C\tb\t-\tX\t+\t1\t*", "C\tb\t-\tX\t+\t1\t*", "L\tX\t+\tb\t+\t1M\tRC:i:{e}"]),
   ("named_edges", ["L\tX\t+\ta\t+\t2M\tID:Z:l9\tRC:i:{e}", "C\tb\t+\tX\t+\t0\t*\tID:Z:7", "L\tb\t-\tX\t+\t1M"]),
 ]
 NSH = len(SHAPES)
